@@ -329,6 +329,12 @@ pub fn explore_input(rep: &mut Report, input: &str, ctor: &'static str, base: us
     // queue holds (parser, trace of op indices from the initial state) -> shortest counterexample traces
     let mut q: VecDeque<(Parser<'_>, Vec<usize>)> = VecDeque::new();
     let Some(k0) = ex.invariant(&init, &[]) else { return };
+    // the step model takes the one-shot split flag of the pre-state from the real object; in the initial state it is
+    // defined by the protocol (a fresh parser has not yielded its last piece), so it is checked rather than adopted
+    if k0.flag {
+        ex.viol("C14", &[], "a fresh parser is already marked as having yielded its last split piece", "split/rsplit on a fresh parser yield the first piece".into(), "one-shot split flag set in the initial state".into());
+        return;
+    }
     seen.insert(k0);
     q.push_back((init, vec![]));
     let mut nstates = 0u64;
